@@ -68,13 +68,88 @@ Check c07_png_predictor_roundtrip : forall pr columns colors bpc early tags x,
   = Some x.
 Print Assumptions c07_png_predictor_roundtrip.
 
-(** known finding C07-TIFF-PREDICTOR: predictor 2 is passed through (the positive theorem above is the
-    guarded one: it covers every predictor value except 2) *)
-Theorem c07_tiff_predictor_refuted :
-  exists x ps, apply_predictor (tiff_forward8 1 1 4 x) 2 ps = Some (tiff_forward8 1 1 4 x) /\ tiff_forward8 1 1 4 x <> x.
+(** TIFF predictor 2 (finding C07-TIFF-PREDICTOR, repaired by fix_tiff_predictor2.patch): for BitsPerComponent
+    1, 2, 4, 8, 16, any Colors >= 1 and Columns >= 1, apply_predictor undoes the TIFF 6.0 section 14 horizontal
+    differencing of Codecs.v.  [tiff_params_ok] = 0 < columns, 0 < colors, bpc in {1,2,4,8,16}, columns*colors*bpc < 2^32.
+    [tiff_canonical_rows]: every row of x is the packing of its own samples, i.e. the padding bits after the last
+    sample of a row are zero (the decoder writes zero padding); it holds for every x at 8 and 16 bits (next two theorems)
+    and is decidable ([tiff_canonical_rows_b], evaluated by the case judge). *)
+Theorem c07_tiff_predictor_roundtrip : forall columns colors bpc early rows x,
+  tiff_params_ok columns colors bpc ->
+  let n := N.to_nat (columns * colors) in
+  let rb := N.to_nat (png_row_bytes columns colors bpc) in
+  bytes_ok x = true -> length x = (rows * rb)%nat -> tiff_canonical_rows rows bpc n rb x ->
+  apply_predictor (tiff_forward rows bpc colors n rb x) 2
+                  (mkP (Some 2%Z) (Some (Z.of_N columns)) (Some (Z.of_N colors)) (Some (Z.of_N bpc)) early)
+  = Some x.
+Proof. exact tiff_predictor_roundtrip. Qed.
+Check c07_tiff_predictor_roundtrip : forall columns colors bpc early rows x,
+  tiff_params_ok columns colors bpc ->
+  let n := N.to_nat (columns * colors) in
+  let rb := N.to_nat (png_row_bytes columns colors bpc) in
+  bytes_ok x = true -> length x = (rows * rb)%nat -> tiff_canonical_rows rows bpc n rb x ->
+  apply_predictor (tiff_forward rows bpc colors n rb x) 2
+                  (mkP (Some 2%Z) (Some (Z.of_N columns)) (Some (Z.of_N colors)) (Some (Z.of_N bpc)) early)
+  = Some x.
+Print Assumptions c07_tiff_predictor_roundtrip.
+
+Theorem c07_tiff_predictor_roundtrip_8 : forall columns colors early rows x,
+  (0 < columns)%N -> (0 < colors)%N -> (columns * colors * 8 < 4294967296)%N ->
+  bytes_ok x = true -> length x = (rows * N.to_nat (columns * colors))%nat ->
+  apply_predictor (tiff_forward rows 8 colors (N.to_nat (columns * colors)) (N.to_nat (columns * colors)) x) 2
+                  (mkP (Some 2%Z) (Some (Z.of_N columns)) (Some (Z.of_N colors)) (Some 8%Z) early) = Some x.
+Proof. exact tiff_predictor_roundtrip_8. Qed.
+Check c07_tiff_predictor_roundtrip_8 : forall columns colors early rows x,
+  (0 < columns)%N -> (0 < colors)%N -> (columns * colors * 8 < 4294967296)%N ->
+  bytes_ok x = true -> length x = (rows * N.to_nat (columns * colors))%nat ->
+  apply_predictor (tiff_forward rows 8 colors (N.to_nat (columns * colors)) (N.to_nat (columns * colors)) x) 2
+                  (mkP (Some 2%Z) (Some (Z.of_N columns)) (Some (Z.of_N colors)) (Some 8%Z) early) = Some x.
+Print Assumptions c07_tiff_predictor_roundtrip_8.
+
+Theorem c07_tiff_predictor_roundtrip_16 : forall columns colors early rows x,
+  (0 < columns)%N -> (0 < colors)%N -> (columns * colors * 16 < 4294967296)%N ->
+  bytes_ok x = true -> length x = (rows * (2 * N.to_nat (columns * colors)))%nat ->
+  apply_predictor (tiff_forward rows 16 colors (N.to_nat (columns * colors)) (2 * N.to_nat (columns * colors)) x) 2
+                  (mkP (Some 2%Z) (Some (Z.of_N columns)) (Some (Z.of_N colors)) (Some 16%Z) early) = Some x.
+Proof. exact tiff_predictor_roundtrip_16. Qed.
+Check c07_tiff_predictor_roundtrip_16 : forall columns colors early rows x,
+  (0 < columns)%N -> (0 < colors)%N -> (columns * colors * 16 < 4294967296)%N ->
+  bytes_ok x = true -> length x = (rows * (2 * N.to_nat (columns * colors)))%nat ->
+  apply_predictor (tiff_forward rows 16 colors (N.to_nat (columns * colors)) (2 * N.to_nat (columns * colors)) x) 2
+                  (mkP (Some 2%Z) (Some (Z.of_N columns)) (Some (Z.of_N colors)) (Some 16%Z) early) = Some x.
+Print Assumptions c07_tiff_predictor_roundtrip_16.
+
+(** every depth, rows ending on a byte boundary: every x of the right length *)
+Theorem c07_tiff_predictor_roundtrip_aligned : forall columns colors bpc early rows x,
+  tiff_params_ok columns colors bpc -> ((columns * colors * bpc) mod 8 = 0)%N ->
+  bytes_ok x = true -> length x = (rows * N.to_nat (png_row_bytes columns colors bpc))%nat ->
+  apply_predictor (tiff_forward rows bpc colors (N.to_nat (columns * colors)) (N.to_nat (png_row_bytes columns colors bpc)) x) 2
+                  (mkP (Some 2%Z) (Some (Z.of_N columns)) (Some (Z.of_N colors)) (Some (Z.of_N bpc)) early) = Some x.
+Proof. exact tiff_predictor_roundtrip_aligned. Qed.
+Check c07_tiff_predictor_roundtrip_aligned : forall columns colors bpc early rows x,
+  tiff_params_ok columns colors bpc -> ((columns * colors * bpc) mod 8 = 0)%N ->
+  bytes_ok x = true -> length x = (rows * N.to_nat (png_row_bytes columns colors bpc))%nat ->
+  apply_predictor (tiff_forward rows bpc colors (N.to_nat (columns * colors)) (N.to_nat (png_row_bytes columns colors bpc)) x) 2
+                  (mkP (Some 2%Z) (Some (Z.of_N columns)) (Some (Z.of_N colors)) (Some (Z.of_N bpc)) early) = Some x.
+Print Assumptions c07_tiff_predictor_roundtrip_aligned.
+
+(** one row: the per-sample identity ((x - p) + p) mod 2^bpc = x lifted over the row, plus unpack/pack *)
+Theorem c07_tiff_row_roundtrip : forall bpc colors n row,
+  tiff_bpc_ok bpc = true -> (0 < colors)%N -> samples_ok (2 ^ bpc)%N (tiff_samples bpc n row) ->
+  (bpc <> 16%N -> length (tiff_samples bpc n row) = n) -> tiff_canonical bpc n row ->
+  tiff_row bpc colors (N.of_nat n) (tiff_forward_row bpc colors n row) = row.
+Proof. exact tiff_row_roundtrip. Qed.
+Check c07_tiff_row_roundtrip : forall bpc colors n row,
+  tiff_bpc_ok bpc = true -> (0 < colors)%N -> samples_ok (2 ^ bpc)%N (tiff_samples bpc n row) ->
+  (bpc <> 16%N -> length (tiff_samples bpc n row) = n) -> tiff_canonical bpc n row ->
+  tiff_row bpc colors (N.of_nat n) (tiff_forward_row bpc colors n row) = row.
+Print Assumptions c07_tiff_row_roundtrip.
+
+(** record of the behaviour before the fix ([apply_predictor_pinned] = the old definition: `_ =>` arm returns the
+    data as-is): predictor 2 was passed through *)
+Theorem c07_tiff_predictor_refuted : exists x ps, apply_predictor_pinned (tiff_forward8 1 1 4 x) 2 ps = Some (tiff_forward8 1 1 4 x) /\ tiff_forward8 1 1 4 x <> x.
 Proof. exact tiff_predictor_roundtrip_refuted. Qed.
-Check c07_tiff_predictor_refuted :
-  exists x ps, apply_predictor (tiff_forward8 1 1 4 x) 2 ps = Some (tiff_forward8 1 1 4 x) /\ tiff_forward8 1 1 4 x <> x.
+Check c07_tiff_predictor_refuted : exists x ps, apply_predictor_pinned (tiff_forward8 1 1 4 x) 2 ps = Some (tiff_forward8 1 1 4 x) /\ tiff_forward8 1 1 4 x <> x.
 Print Assumptions c07_tiff_predictor_refuted.
 
 (** chains: any length; each stage's round trip composes (Flate's inflate is a Section variable pair) *)
@@ -188,6 +263,22 @@ Proof. vm_compute. reflexivity. Qed.
 Example c07_nonvacuous_png : apply_predictor (png_forward [4; 3; 1]%N (png_bpp 3 8) (N.to_nat (png_row_bytes 2 3 8)) [1;2;3;4;5;6; 9;8;7;6;5;4; 250;0;3;1;255;7]%N []) 15
     (mkP (Some 15%Z) (Some 2%Z) (Some 3%Z) (Some 8%Z) None) = Some [1;2;3;4;5;6; 9;8;7;6;5;4; 250;0;3;1;255;7]%N.
 Proof. exact png_predictor_roundtrip_nonvacuous. Qed.
+Example c07_nonvacuous_tiff4 :
+  let x := [18; 52; 86; 120; 144;  255; 238; 221; 204; 176]%N in
+  tiff_params_ok 3 3 4 /\ tiff_canonical_rows 2 4 9 5 x /\
+  tiff_forward 2 4 3 9 5 x <> x /\
+  apply_predictor (tiff_forward 2 4 3 9 5 x) 2 (mkP (Some 2%Z) (Some 3%Z) (Some 3%Z) (Some 4%Z) None) = Some x.
+Proof. exact tiff_predictor_roundtrip_nonvacuous_4. Qed.
+Example c07_nonvacuous_tiff16 :
+  let x := [0; 1; 255; 255; 18; 52; 0; 0]%N in
+  tiff_forward 1 16 2 4 8 x <> x /\
+  apply_predictor (tiff_forward 1 16 2 4 8 x) 2 (mkP (Some 2%Z) (Some 2%Z) (Some 2%Z) (Some 16%Z) None) = Some x.
+Proof. exact tiff_predictor_roundtrip_nonvacuous_16. Qed.
+Example c07_tiff_msb_first :
+  (tiff_samples 2 4 [180] = [2; 3; 1; 0] /\ tiff_samples 4 2 [180] = [11; 4] /\ tiff_samples 1 8 [180] = [1;0;1;1;0;1;0;0] /\
+  tiff_samples 16 1 [18; 52] = [4660] /\ tiff_pack 4 [11; 4; 7] = [180; 112] /\ tiff_pack 1 [1; 1; 0] = [192] /\
+  unpack_samples [180] 2 4 = [2; 3; 1; 0] /\ pack_samples [11; 4; 7] 4 = [180; 112])%N.
+Proof. exact tiff_msb_first. Qed.
 Example c07_nonvacuous_lzw : bytes_ok [97; 97; 97; 97; 97; 98; 97; 98; 97]%N = true /\
   lzw_encode true [97; 97; 97; 97; 97; 98; 97; 98; 97]%N <> [] /\
   decode_lzw (lzw_encode false [97; 97; 97; 97; 97; 98; 97; 98; 97]%N) false = Some [97; 97; 97; 97; 97; 98; 97; 98; 97]%N.
